@@ -14,6 +14,7 @@ import (
 	"errors"
 	"fmt"
 	"math"
+	"math/big"
 	"net"
 	"reflect"
 	"strconv"
@@ -171,7 +172,16 @@ func mkTime(s string) time.Time {
 	if s == "" || s == "zero" {
 		return time.Time{}
 	}
-	return time.Unix(0, atoi(s)).UTC()
+	if n, err := strconv.ParseInt(s, 10, 64); err == nil {
+		return time.Unix(0, n).UTC()
+	}
+	// beyond the int64 nanosecond range (before 1677 / after 2262): seconds and nanoseconds separately
+	b, ok := new(big.Int).SetString(s, 10)
+	if !ok {
+		panic("bad time " + s)
+	}
+	sec, nsec := new(big.Int).DivMod(b, big.NewInt(1000000000), new(big.Int))
+	return time.Unix(sec.Int64(), nsec.Int64()).UTC()
 }
 
 var (
